@@ -1,7 +1,496 @@
-//! C19 — harness not built yet.
+//! C19 — the Python bindings and the command-line tool report exactly what the core library computes.
 use crate::common::*;
+use serde_json::{json, Value};
+use std::process::Command;
+use sudachi::analysis::mlist::MorphemeList;
+use sudachi::analysis::stateful_tokenizer::StatefulTokenizer;
+use sudachi::analysis::Mode;
+use sudachi::config::{Config, SurfaceProjection};
+use sudachi::dic::dictionary::JapaneseDictionary;
+use sudachi::dic::subset::InfoSubset;
+use sudachi::sentence_splitter::{SentenceSplitter, SplitSentences};
+use std::convert::TryFrom;
 
-pub fn run(_args: &Args) {
-    eprintln!("no harness for C19 yet");
-    std::process::exit(2);
+fn mode_of(s: &str) -> Mode {
+    match s {
+        "A" => Mode::A,
+        "B" => Mode::B,
+        _ => Mode::C,
+    }
+}
+
+const FIELDS: [(&str, u32); 9] = [
+    ("surface", 0), ("pos", 1), ("normalized_form", 2), ("dictionary_form", 3), ("reading_form", 4),
+    ("word_structure", 5), ("split_a", 6), ("split_b", 7), ("synonym_group_id", 8),
+];
+fn subset_of(fields: &Option<Vec<String>>) -> InfoSubset {
+    match fields {
+        None => InfoSubset::all(),
+        Some(fs) => {
+            let mut s = InfoSubset::empty();
+            for f in fs {
+                s |= match f.as_str() {
+                    "surface" => InfoSubset::SURFACE,
+                    "pos" | "pos_id" => InfoSubset::POS_ID,
+                    "normalized_form" => InfoSubset::NORMALIZED_FORM,
+                    "dictionary_form" => InfoSubset::DIC_FORM_WORD_ID,
+                    "reading_form" => InfoSubset::READING_FORM,
+                    "word_structure" => InfoSubset::WORD_STRUCTURE,
+                    "split_a" => InfoSubset::SPLIT_A,
+                    "split_b" => InfoSubset::SPLIT_B,
+                    "synonym_group_id" => InfoSubset::SYNONYM_GROUP_ID,
+                    _ => InfoSubset::empty(),
+                };
+            }
+            s
+        }
+    }
+}
+
+const PROJECTIONS: [&str; 7] = ["surface", "normalized", "reading", "dictionary", "dictionary_and_surface", "normalized_and_surface", "normalized_nouns"];
+
+/// documented meaning of the surface projections (python/docs, sudachipy.config.Config)
+fn project(proj: &Option<String>, raw: &str, pos: &[String], dict_form: &str, norm: &str, reading: &str) -> String {
+    let conj = matches!(pos[0].as_str(), "動詞" | "形容詞" | "助動詞");
+    match proj.as_deref() {
+        None | Some("surface") => raw.to_string(),
+        Some("normalized") => norm.to_string(),
+        Some("reading") => reading.to_string(),
+        Some("dictionary") => dict_form.to_string(),
+        Some("dictionary_and_surface") => if conj { raw.to_string() } else { dict_form.to_string() },
+        Some("normalized_and_surface") => if conj { raw.to_string() } else { norm.to_string() },
+        Some("normalized_nouns") => if pos[5] == "*" { norm.to_string() } else { raw.to_string() },
+        Some(_) => raw.to_string(),
+    }
+}
+
+fn observe(ml: &MorphemeList<&JapaneseDictionary>, proj: &Option<String>, with_slice: bool) -> Vec<Value> {
+    ml.iter()
+        .map(|m| {
+            let raw = m.surface().to_string();
+            let pos: Vec<String> = m.part_of_speech().to_vec();
+            let mut v = json!({
+                "surface": project(proj, &raw, &pos, m.dictionary_form(), m.normalized_form(), m.reading_form()),
+                "raw_surface": raw,
+                "begin": m.begin_c(),
+                "end": m.end_c(),
+                "pos": pos,
+                "pos_id": m.part_of_speech_id(),
+                "dictionary_form": m.dictionary_form(),
+                "normalized_form": m.normalized_form(),
+                "reading_form": m.reading_form(),
+                "is_oov": m.is_oov(),
+                "word_id": m.word_id().as_raw(),
+                "dictionary_id": m.dictionary_id(),
+                "synonym_group_ids": m.synonym_group_ids(),
+            });
+            if with_slice {
+                v["slice_ok"] = json!(true);
+            }
+            v
+        })
+        .collect()
+}
+
+/// the library's answer for one session (mirrors what the binding is documented to do)
+fn run_session(dict: &JapaneseDictionary, s: &Value) -> Vec<Value> {
+    let mode = mode_of(s["mode"].as_str().unwrap());
+    let fields: Option<Vec<String>> = s["fields"].as_array().map(|a| a.iter().map(|x| x.as_str().unwrap().to_string()).collect());
+    let proj: Option<String> = s["projection"].as_str().map(|x| x.to_string());
+    let required = match &proj {
+        Some(p) => SurfaceProjection::try_from(p.as_str()).map(|p| p.required_subset()).unwrap_or(InfoSubset::empty()),
+        None => InfoSubset::empty(),
+    };
+    let mut tok = StatefulTokenizer::new(dict, mode);
+    tok.set_subset(subset_of(&fields) | required);
+    let mut last: Option<MorphemeList<&JapaneseDictionary>> = None;
+    let mut obs = vec![];
+    for op in s["ops"].as_array().unwrap() {
+        let r = catch(|| -> Result<Value, String> {
+            match op["op"].as_str().unwrap() {
+                "tokenize" => {
+                    // a per-call mode override never outlives the call; every call yields a list of its own content
+                    let mut t2 = StatefulTokenizer::new(dict, op["mode"].as_str().map(mode_of).unwrap_or(mode));
+                    t2.set_subset(subset_of(&fields) | required);
+                    if op["mode"].is_null() {
+                        // same tokenizer object when no override is given (history must not matter: C10)
+                        tok.reset().push_str(op["text"].as_str().unwrap());
+                        tok.do_tokenize().map_err(|e| format!("{:?}", e))?;
+                        let mut ml = MorphemeList::empty(dict);
+                        ml.collect_results(&mut tok).map_err(|e| format!("{:?}", e))?;
+                        let o = observe(&ml, &proj, true);
+                        last = Some(ml);
+                        Ok(json!({"ok": true, "morphemes": o, "tok_mode": s["mode"]}))
+                    } else {
+                        t2.reset().push_str(op["text"].as_str().unwrap());
+                        t2.do_tokenize().map_err(|e| format!("{:?}", e))?;
+                        let mut ml = MorphemeList::empty(dict);
+                        ml.collect_results(&mut t2).map_err(|e| format!("{:?}", e))?;
+                        let o = observe(&ml, &proj, true);
+                        last = Some(ml);
+                        Ok(json!({"ok": true, "morphemes": o, "tok_mode": s["mode"]}))
+                    }
+                }
+                "split" => {
+                    let ml = match &last {
+                        Some(ml) if ml.len() > 0 => ml,
+                        _ => return Ok(json!({"ok": true, "morphemes": [], "skipped": true})),
+                    };
+                    let idx = op["index"].as_u64().unwrap() as usize % ml.len();
+                    let mut out = ml.empty_clone();
+                    let splitted = ml.split_into(mode_of(op["mode"].as_str().unwrap()), idx, &mut out).map_err(|e| format!("{:?}", e))?;
+                    if !splitted && op["add_single"].as_bool().unwrap_or(true) {
+                        ml.copy_slice(idx, idx + 1, &mut out);
+                    }
+                    Ok(json!({"ok": true, "morphemes": observe(&out, &proj, true)}))
+                }
+                _ => {
+                    let mut out = MorphemeList::empty(dict);
+                    out.lookup(op["query"].as_str().unwrap(), InfoSubset::all()).map_err(|e| format!("{:?}", e))?;
+                    // lookup results are created by the dictionary object: its own (configured) projection applies
+                    Ok(json!({"ok": true, "morphemes": observe(&out, &None, false)}))
+                }
+            }
+        });
+        obs.push(match r {
+            Ok(Ok(v)) => v,
+            Ok(Err(_)) => json!({"ok": false, "error": "SudachiError"}),
+            Err(_) => json!({"ok": false, "error": "PanicException"}),
+        });
+    }
+    obs
+}
+
+fn rand_text(rng: &mut Rng) -> String {
+    let pool = ["東京都", "京都", "東京", "に", "行っ", "た", "。", "ア", "イ", "ー", "1", "2", "3", ",", ".", "a", "Z", " ", "か", "が", "👍", "🏻", "ｶﾞ", "㍿", "é", "e\u{301}", "𠮷", "高輪ゲートウェイ駅", "特a", "な。な", "いく", "いっ", "行く", "〇", "千", "二"];
+    let n = rng.below(8);
+    let mut s = String::new();
+    for _ in 0..n {
+        s.push_str(*rng.pick(&pool[..]));
+    }
+    s
+}
+
+fn gen_session(rng: &mut Rng) -> Value {
+    let modes = ["A", "B", "C"];
+    let fields: Value = if rng.chance(1, 2) {
+        Value::Null
+    } else {
+        let mut f = vec![];
+        for (name, _) in FIELDS.iter() {
+            if rng.chance(1, 3) {
+                f.push(json!(name));
+            }
+        }
+        json!(f)
+    };
+    let projection: Value = if rng.chance(1, 2) { Value::Null } else { json!(*rng.pick(&PROJECTIONS[..])) };
+    let nops = 1 + rng.below(6);
+    let mut ops = vec![];
+    for _ in 0..nops {
+        match rng.below(6) {
+            0 | 1 | 2 => ops.push(json!({"op": "tokenize", "text": rand_text(rng),
+                "mode": if rng.chance(1, 3) { json!(*rng.pick(&modes[..])) } else { Value::Null }, "out": rng.chance(1, 2)})),
+            3 | 4 => ops.push(json!({"op": "split", "index": rng.below(8), "mode": *rng.pick(&modes[..]), "out": rng.chance(1, 2), "add_single": rng.chance(2, 3)})),
+            _ => ops.push(json!({"op": "lookup", "query": *rng.pick(&["東京都", "京都", "に", "行っ", "xyz", "", "特a", "いく"][..]), "out": rng.chance(1, 2)})),
+        }
+    }
+    json!({"mode": *rng.pick(&modes[..]), "fields": fields, "projection": projection, "ops": ops})
+}
+
+// ---------------------------------------------------------------- command-line tool
+fn expected_cli(dict: &JapaneseDictionary, file: &[u8], mode: Mode, wakati: bool, all: bool, split: &str) -> Result<Vec<u8>, String> {
+    let text = std::str::from_utf8(file).unwrap();
+    let mut out: Vec<u8> = vec![];
+    let mut tok = StatefulTokenizer::new(dict, mode);
+    // lines as read_line delivers them; each without exactly one "\n" or "\r\n"
+    let mut lines: Vec<&str> = vec![];
+    let mut rest = text;
+    while !rest.is_empty() {
+        match rest.find('\n') {
+            Some(i) => {
+                lines.push(&rest[..=i]);
+                rest = &rest[i + 1..];
+            }
+            None => {
+                lines.push(rest);
+                rest = "";
+            }
+        }
+    }
+    let splitter = SentenceSplitter::new().with_checker(dict.lexicon());
+    for line in lines {
+        let t = line.strip_suffix("\r\n").or_else(|| line.strip_suffix('\n')).unwrap_or(line);
+        let sentences: Vec<String> = match split {
+            "no" => vec![t.to_string()],
+            _ => splitter.split(t).map(|(_, s)| s.to_string()).collect(),
+        };
+        for s in sentences {
+            if split == "only" {
+                out.extend_from_slice(s.as_bytes());
+                continue;
+            }
+            tok.reset().push_str(&s);
+            tok.do_tokenize().map_err(|e| format!("{:?}", e))?;
+            let mut ml = MorphemeList::empty(dict);
+            ml.collect_results(&mut tok).map_err(|e| format!("{:?}", e))?;
+            if wakati {
+                if ml.len() == 0 {
+                    out.push(b'\n');
+                } else {
+                    let ss: Vec<String> = ml.iter().map(|m| m.surface().to_string()).collect();
+                    out.extend_from_slice(ss.join(" ").as_bytes());
+                    out.push(b'\n');
+                }
+            } else {
+                for m in ml.iter() {
+                    let mut l = format!("{}\t{}\t{}", m.surface(), m.part_of_speech().join(","), m.normalized_form());
+                    if all {
+                        l.push_str(&format!("\t{}\t{}\t{}\t{:?}", m.dictionary_form(), m.reading_form(), m.dictionary_id(), m.synonym_group_ids()));
+                        if m.is_oov() {
+                            l.push_str("\t(OOV)");
+                        }
+                    }
+                    l.push('\n');
+                    out.extend_from_slice(l.as_bytes());
+                }
+                out.extend_from_slice(b"EOS\n");
+            }
+        }
+    }
+    Ok(out)
+}
+
+fn gen_file(rng: &mut Rng, spaces: bool) -> Vec<u8> {
+    let nlines = rng.below(6);
+    let mut f = String::new();
+    for i in 0..nlines {
+        let mut t = if rng.chance(1, 4) { String::new() } else { rand_text(rng) };
+        if !spaces {
+            t = t.replace(' ', "");
+        }
+        f.push_str(&t);
+        let last = i + 1 == nlines;
+        match rng.below(if last { 4 } else { 3 }) {
+            0 => f.push_str("\r\n"),
+            3 => {}
+            _ => f.push('\n'),
+        }
+    }
+    f.into_bytes()
+}
+
+pub fn run(args: &Args) {
+    let mut sink = Sink::new("C19", &args.out, &["Model.Cli"], args.seed, &args.tier);
+    sink.rule("python: sessions {create(mode, fields subset, projection); 1..6 ops of tokenize(text, per-call mode, out= reuse) / Morpheme.split(mode, out=, add_single) / Dictionary.lookup} run in the sudachipy module built from the working tree and mirrored on the Rust library, compared field by field (surface, raw_surface, begin/end with text[begin:end] == raw_surface, POS, forms, ids, split results); CLI: multi-line files (blank lines, CRLF, no final newline) x modes x {-w, -a, default} x --split-sentences {yes,no,only}, stdout compared byte for byte with the library's morphemes in the documented format; Coq: the line-handling and surface-only-output models against what the tool demonstrably analysed/printed; non-trivial = at least one non-empty text; distinct by content");
+    let mut rng = Rng::new(args.seed);
+    let res = format!("{}/python/tests/resources", repo());
+    let cfg_path = format!("{}/sudachi.json", res);
+    let config = Config::new(Some(cfg_path.clone().into()), Some(res.clone().into()), None).expect("config");
+    let dict = JapaneseDictionary::from_cfg(&config).expect("dictionary");
+    let pypkg = std::env::var("VERIF_PYPKG").unwrap_or_default();
+    let cli = std::env::var("VERIF_CLI_BIN").unwrap_or_default();
+    let root = std::env::var("VERIF_ROOT").unwrap_or_else(|_| ".".into());
+    std::fs::create_dir_all(&args.work).unwrap();
+
+    // ---------------- python sessions
+    let sessions: Vec<Value> = if let Some(p) = &args.replay {
+        let v: Value = serde_json::from_str(&std::fs::read_to_string(p).unwrap()).unwrap();
+        if v["case"]["kind"] == "py-session" { vec![v["case"]["session"].clone()] } else { vec![] }
+    } else {
+        let mut v = vec![
+            json!({"mode": "C", "fields": null, "projection": null, "ops": [
+                {"op": "tokenize", "text": "東京都に行った。", "mode": "A", "out": false}, {"op": "tokenize", "text": "東京都に行った。", "mode": null, "out": true},
+                {"op": "split", "index": 0, "mode": "A", "out": true, "add_single": true}, {"op": "split", "index": 1, "mode": "A", "out": true, "add_single": false},
+                {"op": "tokenize", "text": "", "mode": null, "out": true}, {"op": "lookup", "query": "東京都", "out": true}]}),
+            json!({"mode": "A", "fields": ["dictionary_form"], "projection": "dictionary", "ops": [{"op": "tokenize", "text": "👍🏻é東京都に行った", "mode": null, "out": false}]}),
+        ];
+        for _ in 0..args.n(250, 4000) {
+            v.push(gen_session(&mut rng));
+        }
+        v
+    };
+    if !sessions.is_empty() {
+        let sp = args.work.join("sessions.json");
+        let op = args.work.join("py_out.json");
+        std::fs::write(&sp, serde_json::to_vec(&sessions).unwrap()).unwrap();
+        let _ = std::fs::remove_file(&op);
+        let st = Command::new("python3")
+            .arg(format!("{}/pyharness/run_py.py", root))
+            .arg(&cfg_path)
+            .arg(&res)
+            .arg(&sp)
+            .arg(&op)
+            .env("PYTHONPATH", &pypkg)
+            .output();
+        let py: Option<Value> = std::fs::read_to_string(&op).ok().and_then(|s| serde_json::from_str(&s).ok());
+        match (&st, &py) {
+            (Ok(o), Some(py)) if o.status.success() => {
+                sink.extra("python_panic_exceptions", py["panic_exceptions"].clone());
+                for (i, s) in sessions.iter().enumerate() {
+                    let mine = run_session(&dict, s);
+                    let theirs = py["results"][i].as_array().cloned().unwrap_or_default();
+                    let nontrivial = s["ops"].as_array().unwrap().iter().any(|o| o["text"].as_str().map_or(false, |t| !t.is_empty()));
+                    sink.tag("py-session");
+                    if !s["fields"].is_null() {
+                        sink.tag("py:field-subset");
+                    }
+                    if !s["projection"].is_null() {
+                        sink.tag("py:projection");
+                    }
+                    let id = sink.case_rust_only(json!({"kind": "py-session", "session": s}), nontrivial);
+                    if args.replay.is_some() {
+                        println!("library : {}", serde_json::to_string(&mine).unwrap());
+                        println!("python  : {}", serde_json::to_string(&theirs).unwrap());
+                    }
+                    for (k, (a, b)) in mine.iter().zip(theirs.iter()).enumerate() {
+                        let mut b2 = b.clone();
+                        // a failing slice check is reported on its own
+                        let mut slice_bad = false;
+                        if let Some(ms) = b2["morphemes"].as_array_mut() {
+                            for m in ms.iter_mut() {
+                                if m["slice_ok"] == json!(false) {
+                                    slice_bad = true;
+                                }
+                            }
+                        }
+                        if slice_bad {
+                            sink.fail(id, &format!("op {}: text[begin:end] != raw_surface in Python", k), "");
+                            break;
+                        }
+                        if a["ok"] != b2["ok"] {
+                            sink.fail(id, &format!("op {} ({}): library ok={} but python ok={} ({})", k, s["ops"][k]["op"], a["ok"], b2["ok"], b2["error"]), "");
+                            break;
+                        }
+                        if a["ok"] == json!(true) && (a["morphemes"] != b2["morphemes"] || (a.get("tok_mode").is_some() && a["tok_mode"] != b2["tok_mode"])) {
+                            let am = a["morphemes"].as_array().unwrap();
+                            let bm = b2["morphemes"].as_array().unwrap();
+                            let what = if am.len() != bm.len() { format!("{} vs {} morphemes", am.len(), bm.len()) } else {
+                                let j = (0..am.len()).find(|j| am[*j] != bm[*j]);
+                                match j { Some(j) => format!("morpheme {}: library {} python {}", j, am[j], bm[j]), None => format!("tokenizer mode after call: {} vs {}", a["tok_mode"], b2["tok_mode"]) }
+                            };
+                            sink.fail(id, &format!("op {} ({}): {}", k, s["ops"][k]["op"], what), "");
+                            break;
+                        }
+                    }
+                    if mine.len() != theirs.len() {
+                        sink.fail(id, "python driver returned a different number of observations", "");
+                    }
+                }
+            }
+            (Ok(o), _) => {
+                let id = sink.case_rust_only(json!({"kind": "py-run", "sessions": sessions.len()}), true);
+                sink.fail(id, &format!("python interpreter did not complete (status {:?}): {}", o.status.code(), String::from_utf8_lossy(&o.stderr).chars().rev().take(600).collect::<String>().chars().rev().collect::<String>()), "");
+            }
+            (Err(e), _) => {
+                let id = sink.case_rust_only(json!({"kind": "py-run"}), true);
+                sink.fail(id, &format!("cannot start python3: {}", e), "");
+            }
+        }
+    }
+
+    // ---------------- command-line tool
+    let cli_cases: Vec<(Vec<u8>, &str, bool, bool, &str)> = if let Some(p) = &args.replay {
+        let v: Value = serde_json::from_str(&std::fs::read_to_string(p).unwrap()).unwrap();
+        let c = &v["case"];
+        if c["kind"] == "cli" {
+            let file: Vec<u8> = c["file_bytes"].as_array().unwrap().iter().map(|x| x.as_u64().unwrap() as u8).collect();
+            let m: &'static str = match c["mode"].as_str().unwrap() { "A" => "A", "B" => "B", _ => "C" };
+            let sp: &'static str = match c["split"].as_str().unwrap() { "no" => "no", "only" => "only", _ => "yes" };
+            vec![(file, m, c["wakati"].as_bool().unwrap(), c["all"].as_bool().unwrap(), sp)]
+        } else {
+            vec![]
+        }
+    } else {
+        let mut v: Vec<(Vec<u8>, &str, bool, bool, &str)> = vec![
+            (b"a\n\nb\r\nc".to_vec(), "C", true, false, "no"),
+            (b"\n".to_vec(), "C", true, false, "no"),
+            (b"\r\n".to_vec(), "C", false, true, "no"),
+            ("東京都に行った。京都に行った。\n\n".as_bytes().to_vec(), "A", false, true, "yes"),
+            (b"".to_vec(), "C", false, false, "yes"),
+        ];
+        for _ in 0..args.n(60, 600) {
+            let wakati = rng.chance(1, 2);
+            let split = *rng.pick(&["yes", "no", "no", "only"][..]);
+            v.push((gen_file(&mut rng, !(wakati && split == "no")), *rng.pick(&["A", "B", "C"][..]), wakati, rng.chance(1, 2), split));
+        }
+        v
+    };
+    for (k, (file, mode, wakati, all, split)) in cli_cases.iter().enumerate() {
+        let inp = args.work.join(format!("cli_in_{}.txt", k % 8));
+        std::fs::write(&inp, file).unwrap();
+        let mut cmd = Command::new(&cli);
+        cmd.arg("-r").arg(&cfg_path).arg("-p").arg(&res).arg("-m").arg(mode).arg("--split-sentences").arg(split);
+        if *wakati {
+            cmd.arg("-w");
+        }
+        if *all {
+            cmd.arg("-a");
+        }
+        cmd.arg(&inp);
+        let o = cmd.output();
+        let desc = json!({"kind": "cli", "file": String::from_utf8_lossy(file), "file_bytes": file, "mode": mode, "wakati": wakati, "all": all, "split": split});
+        sink.tag("cli");
+        sink.tag(&format!("cli:split={}", split));
+        if file.windows(2).any(|w| w == b"\n\n" || w == b"\r\n") || file.first() == Some(&b'\n') {
+            sink.tag("cli:blank-or-crlf");
+        }
+        let nontrivial = file.iter().any(|b| *b != b'\n' && *b != b'\r');
+        let expected = expected_cli(&dict, file, mode_of(mode), *wakati, *all, split);
+        match (o, expected) {
+            (Ok(o), Ok(exp)) => {
+                // Coq side: for surface-only output without sentence splitting and without spaces in the input the analysed
+                // texts can be read off the output
+                let id = if *wakati && *split == "no" && o.status.success() && !file.contains(&b' ') {
+                    let outs = String::from_utf8_lossy(&o.stdout).to_string();
+                    let texts: Vec<String> = outs.split_terminator('\n').map(|l| l.replace(' ', "")).collect();
+                    let term = format!("check_cli_lines {} {}", cbytes(file), clist(texts.iter().map(|t| cbytes(t.as_bytes()))));
+                    sink.case(term, desc.clone(), nontrivial)
+                } else {
+                    sink.case_rust_only(desc.clone(), nontrivial)
+                };
+                if args.replay.is_some() {
+                    println!("tool stdout : {:?}\nexpected    : {:?}", String::from_utf8_lossy(&o.stdout), String::from_utf8_lossy(&exp));
+                }
+                if !o.status.success() {
+                    sink.fail(id, &format!("the tool exited with {:?}: {}", o.status.code(), String::from_utf8_lossy(&o.stderr).chars().take(300).collect::<String>()), "");
+                } else if o.stdout != exp {
+                    sink.fail(id, &format!("tool printed {:?} but the library's morphemes in the documented format are {:?}", String::from_utf8_lossy(&o.stdout), String::from_utf8_lossy(&exp)), "");
+                }
+            }
+            (Ok(o), Err(e)) => {
+                let id = sink.case_rust_only(desc, nontrivial);
+                if o.status.success() {
+                    sink.fail(id, &format!("library fails ({}) but the tool succeeded", e), "");
+                }
+            }
+            (Err(e), _) => {
+                let id = sink.case_rust_only(desc, nontrivial);
+                sink.fail(id, &format!("cannot run the tool: {}", e), "");
+            }
+        }
+    }
+    // surface-only formatting model vs the library's surfaces (independent of the tool binary): wakati
+    for _ in 0..args.n(40, 400) {
+        let t = rand_text(&mut rng);
+        let mut tok = StatefulTokenizer::new(&dict, Mode::C);
+        tok.reset().push_str(&t);
+        if tok.do_tokenize().is_err() {
+            continue;
+        }
+        let mut ml = MorphemeList::empty(&dict);
+        ml.collect_results(&mut tok).unwrap();
+        let ss: Vec<String> = ml.iter().map(|m| m.surface().to_string()).collect();
+        let inp = args.work.join("cli_w.txt");
+        std::fs::write(&inp, format!("{}\n", t)).unwrap();
+        if let Ok(o) = Command::new(&cli).arg("-r").arg(&cfg_path).arg("-p").arg(&res).arg("-w").arg("--split-sentences").arg("no").arg(&inp).output() {
+            if t.contains('\n') {
+                continue;
+            }
+            let term = format!("check_wakati {} {}", clist(ss.iter().map(|s| cbytes(s.as_bytes()))), cbytes(&o.stdout));
+            sink.tag("cli:wakati-model");
+            sink.case(term, json!({"kind": "cli", "file": format!("{}\n", t), "file_bytes": format!("{}\n", t).as_bytes(), "mode": "C", "wakati": true, "all": false, "split": "no"}), !t.is_empty());
+        }
+    }
+    sink.finish();
 }
